@@ -101,6 +101,8 @@ def _assume_domain(ctx: Ctx, cfg: dict, names, cells, s: Script, tol, min_iter, 
         if isinstance(s.kind[p], SInt):
             ctx.assume(z3.And(s.kind[p].t >= 0, s.kind[p].t <= KIND_MAX[0]), f'fault kind of pass {p} in {{none,RuntimeWarning,raise,raise SolutionError,UserWarning,DeprecationWarning}}[:{KIND_MAX[0] + 1}]')
             ctx.assume(z3.And(s.fs[p].t >= 0, s.fs[p].t <= max(N, 1) - 1), f'fault statement of pass {p} in range')
+    if cfg.get('status0') == 'sym':
+        ctx.assume(z3.And(z3.Int('status0') >= 0, z3.Int('status0') < len(STATUS_LIST)), f'status of period t before the call in {STATUS_LIST}')
     for h in (s.kb, s.ka):
         if isinstance(h, SInt):
             ctx.assume(z3.And(h.t >= 0, h.t <= 3), 'hook fault kind in {none,RuntimeWarning,raise,UserWarning}')
@@ -136,13 +138,59 @@ def _span(cfg: dict):
     return list(range(2000, 2000 + cfg['L']))
 
 
+STATUS_LIST = ['-', '.', 'F', 'E', 'S']
+ITERS0 = 7   # iteration count a previously solved period carries (any value other than -1)
+
+
 def _build_model(cfg: dict, cells: Dict[str, list], script: Script, dtype):
+    """The model in the state under test.
+
+    Default: constructed on the span, cells written straight into its arrays, status '-' everywhere.
+    cfg['stage'] (None | 'rebind' | 'copy' | 'reindex' | 'rebind_copy'): the state is reached through a HISTORY of public calls
+    instead -- every period solved once with a scripted, converging model, the read paths exercised, then the object
+    copied / reindexed from a wider span and the series under test installed by whole-series assignment (new arrays) or
+    in place.  Anything the object remembers from the history (cached arrays, positions, lengths, flags) is then stale.
+    cfg['status0'] ('sym' | index into STATUS_LIST | None): status / iteration count of period t before the call."""
     M = _model_class(cfg)
-    m = M(_span(cfg), dtype=dtype)
+    stage = cfg.get('stage')
+    span = _span(cfg)
+    if not stage:
+        m = M(span, dtype=dtype)
+    else:
+        wide = ([span[0] - 1] + span + [span[-1] + 1]) if stage == 'reindex' and span else span
+        m = M(wide, dtype=dtype)
+        pre = Script(cfg['N'], 2, with_z=cfg['with_z'])
+        pre.v[1] = pre.v[2] = [1.0] * cfg['N']
+        m.attach(pre)
+        with (shimmed() if dtype is object else contextlib.nullcontext()), warnings.catch_warnings():
+            warnings.simplefilter('ignore')
+            for j in range(len(wide)):
+                m.solve_t(j, max_iter=2, failures='ignore', errors='ignore')
+            for n in m.names:       # read paths
+                getattr(m, n), m[n], m.eval(n)
+                if wide:
+                    m[n, wide[0]:], m[n, :wide[-1]], m[n, wide[0]]
+            if dtype is not object:
+                m.values, m.size
+        if stage == 'reindex':
+            m = m.reindex(span)
+        elif stage in ('copy', 'rebind_copy'):
+            m = m.copy()
     for n, vals in cells.items():
-        arr = m.__dict__['_' + n]
-        for j, v in enumerate(vals):
-            arr[j] = v
+        if stage in ('rebind', 'rebind_copy', 'reindex'):
+            setattr(m, n, list(vals))          # whole-series assignment: a new array
+        else:
+            arr = m.__dict__['_' + n]
+            for j, v in enumerate(vals):
+                arr[j] = v
+    if stage and cfg.get('status0') is None:
+        m.status = '-'
+        m.iterations = -1
+    s0 = cfg.get('status0')
+    if s0 is not None:
+        idx = SInt('status0').__index__() if s0 == 'sym' else int(s0)
+        m.status[cfg['t']] = STATUS_LIST[idx]
+        m.iterations[cfg['t']] = -1 if STATUS_LIST[idx] == '-' else ITERS0
     if cfg.get('extra_var'):
         # a variable added to the INSTANCE after construction (the class lists do not know it)
         m.add_variable('Q', 0.0, dtype=dtype)
@@ -262,12 +310,13 @@ def explore_config(cfg: dict) -> dict:
         impl_cells = {n: list(m.__dict__['_' + n]) for n in names_}
         # reference on its own copy of the initial cells
         _, rcells, rs, rtol, rmin, roff = _symbolic_inputs(cfg)
+        tc0 = t if t >= 0 else t + L
         if twin == 'tol_le':
-            ref = ref_solve_t(rcells, '-', -1, rs, t=t, L=L, min_iter=rmin, max_iter=cfg['B'],
+            ref = ref_solve_t(rcells, status0[tc0], iters0[tc0], rs, t=t, L=L, min_iter=rmin, max_iter=cfg['B'],
                               tol=_LeTol(rtol), offset=roff, failures=cfg['failures'], errors=cfg['errors'],
                               cfe=cfg['cfe'], endogenous=m.endogenous, check=m.check)
         else:
-            ref = ref_solve_t(rcells, '-', -1, rs, t=t, L=L, min_iter=rmin, max_iter=cfg['B'], tol=rtol,
+            ref = ref_solve_t(rcells, status0[tc0], iters0[tc0], rs, t=t, L=L, min_iter=rmin, max_iter=cfg['B'], tol=rtol,
                               offset=roff, failures=cfg['failures'], errors=cfg['errors'], cfe=cfg['cfe'],
                               endogenous=m.endogenous, check=m.check)
         if twin and twin != 'tol_le':
@@ -400,6 +449,8 @@ def _ieee_witness(ctx: Ctx, path, cfg: dict, extra: list, soft: bool = False) ->
     inp['tol'] = model_float(m, tol.t) if isinstance(tol, SFloat) else tol
     inp['min_iter'] = model_int(m, min_iter.t) if isinstance(min_iter, SInt) else min_iter
     inp['offset'] = model_int(m, offset.t) if isinstance(offset, SInt) else offset
+    if cfg.get('status0') == 'sym':
+        inp['status0'] = model_int(m, z3.Int('status0'))
     return inp
 
 
@@ -419,14 +470,17 @@ def replay_concrete(cfg: dict, inp: dict) -> dict:
     """Run the same scenario on the unshimmed implementation with real float64
     arrays and compare with the reference evaluated on plain floats."""
     cells = {n: [np.float64(x) for x in vals] for n, vals in inp['cells'].items()}
+    if 'status0' in inp:
+        cfg = dict(cfg, status0=inp['status0'])
     m = _build_model(cfg, cells, _concrete_script(cfg, inp), dtype=float)
     status0 = [str(x) for x in m.status]
     iters0 = [int(x) for x in m.iterations]
+    tc0 = cfg['t'] if cfg['t'] >= 0 else cfg['t'] + cfg['L']
     assert fmodels.np is np, 'replay must run unshimmed'
     impl = _call_impl(m, cfg, min_iter=inp['min_iter'], tol=inp['tol'], offset=inp['offset'])
     rcells = {n: [np.float64(x) for x in vals] for n, vals in inp['cells'].items()}
     with np.errstate(all='ignore'):
-        ref = ref_solve_t(rcells, '-', -1, _concrete_script(cfg, inp), t=cfg['t'], L=cfg['L'],
+        ref = ref_solve_t(rcells, status0[tc0], iters0[tc0], _concrete_script(cfg, inp), t=cfg['t'], L=cfg['L'],
                           min_iter=inp['min_iter'], max_iter=cfg['B'],
                           tol=_LeTol(inp['tol']) if cfg.get('twin') == 'tol_le' else inp['tol'], offset=inp['offset'],
                           failures=cfg['failures'], errors=cfg['errors'], cfe=cfg['cfe'],
